@@ -54,13 +54,15 @@ func init() {
 			return map[string]interface{}{"operand_count": "0.." + itoa(n), "operand_values": "full int64 / bool (symbolic)",
 				"type_combinations": "all for ≤2 operands; all-correct plus every single wrong-typed position above that"}
 		},
-		Rule: "one unit per (operator table entry, operand type vector); a state is one symbolic path of the operator + reference; non-trivial = reaches an assertion",
+		Rule:        "one unit per (operator table entry, operand type vector); a state is one symbolic path of the operator + reference; non-trivial = reaches an assertion",
 		Assumptions: []string{"eq/ne on list operands are excluded here (uncomparable operands are C06's subject)"},
-		WallBudget: func(tier string) time.Duration { return 20 * time.Minute },
+		WallBudget:  func(tier string) time.Duration { return 20 * time.Minute },
 	})
 }
 
-func itoa(n int) string { return strings.TrimSpace(strings.Replace(" "+string(rune('0'+n%10)), " 0", "0", 0)) }
+func itoa(n int) string {
+	return strings.TrimSpace(strings.Replace(" "+string(rune('0'+n%10)), " 0", "0", 0))
+}
 
 // c18Tags enumerates operand type vectors.
 func c18Tags(maxN int, op string) []string {
@@ -98,4 +100,67 @@ func c18Tags(maxN int, op string) []string {
 		}
 	}
 	return out
+}
+
+func shapeTierParams(tier string) (maxM int, pol leafPolicy) {
+	if tier == "thorough" {
+		return 3, leavesStandard
+	}
+	return 2, leavesStandard
+}
+
+func init() {
+	registerProp(&PropSpec{
+		ID: "C01",
+		Units: func(tier string, seed int64, sh *Shared) []Unit {
+			maxM, pol := shapeTierParams(tier)
+			var units []Unit
+			for _, src := range shapeFamily(maxM, pol, false, "BI") {
+				for _, mode := range []string{"v", "f", "w"} {
+					units = append(units, Unit{"VerifC01", []string{src, "keys", mode}})
+				}
+			}
+			for _, sh := range stressShapes() {
+				src := assignLeaves(sh, strings.Repeat("v", len(leafSlots(sh))))
+				units = append(units, Unit{"VerifC01", []string{src, "keys", "v"}})
+				if len(leafSlots(sh)) <= 8 || tier == "thorough" {
+					units = append(units, Unit{"VerifC01", []string{src, "keys", "f"}})
+				}
+				if len(leafSlots(sh)) <= 6 {
+					units = append(units, Unit{"VerifC01", []string{src, "keys", "w"}})
+					for _, v := range leafVariants(sh, leavesStandard) {
+						if v != src {
+							units = append(units, Unit{"VerifC01", []string{v, "keys", "v"}})
+						}
+					}
+				}
+			}
+			small := 1
+			if tier == "thorough" {
+				small = 2
+			}
+			for _, src := range shapeFamily(small, leavesStandard, false, "BI") {
+				units = append(units, Unit{"VerifC01", []string{src, "undef", "f"}})
+				if strings.Contains(src, "K") {
+					units = append(units, Unit{"VerifC01", []string{src, "shadow", "v"}})
+				}
+			}
+			return units
+		},
+		Reach: []string{"value", "sentinel", "builtin-error", "evalbool-nonbool"},
+		Bounds: func(tier string) map[string]interface{} {
+			maxM, _ := shapeTierParams(tier)
+			return map[string]interface{}{"shapes": "all typed shapes with ≤" + itoa(maxM) + " internal nodes (grammar of DESIGN.md §3) + jump-stress family",
+				"values": "every variable: arbitrary int64/bool, unbound (own sentinel error) or wrong-typed; constants arbitrary; custom operators fail on arbitrary arguments"}
+		},
+		Rule: "one unit per (shape with leaf assignment, registration mode); a state is one symbolic path through Compile+Eval+reference evaluation",
+		Assumptions: []string{"operands of and/or are boolean-typed or failing (property quantifier; assumed in the reference)",
+			"one representative operator per class inside composite programs (and/or/not/if/>/=/+// and custom p,q); the individual operators are covered by C18"},
+		WallBudget: func(tier string) time.Duration {
+			if tier == "thorough" {
+				return 90 * time.Minute
+			}
+			return 8 * time.Minute
+		},
+	})
 }
